@@ -124,11 +124,21 @@ HDR = ("From Coq Require Import ZArith List Bool. From OG Require Import C09.Mod
        "Import ListNotations. Open Scope Z_scope.\n")
 
 
+def coq_tuples(body, arity):
+    """all tuples of `arity` numbers in the printed list `body`; None when some printed tuple could not be read.
+    Coq's printer breaks lines anywhere - also right after an opening parenthesis - and adds scope suffixes (3%nat)."""
+    flat = re.sub(r"%\w+", "", re.sub(r"\s+", "", body))
+    tups = re.findall(r"\((-?\d+(?:,-?\d+){%d})\)" % (arity - 1), flat)
+    if len(tups) != flat.count("("):
+        return None
+    return [tuple(int(x) for x in t.split(",")) for t in tups]
+
+
 def parse_triples(o):
     m = re.search(r"M\s*=\s*(.*?)\s*:\s*list", o, re.S)
     if not m:
         return None
-    return [(int(a), int(b), int(c)) for a, b, c in re.findall(r"\((\d+)(?:%nat)?,\s*(\d+)(?:%nat)?,\s*(\d+)(?:%nat)?\)", m.group(1))]
+    return coq_tuples(m.group(1), 3)
 
 
 def main(ck):
@@ -216,6 +226,17 @@ def main(ck):
                    "Definition M := Eval vm_compute in flat_chunks cases.\nPrint M.\n") % ";\n".join(chunk_term(hs[hi]["chunks"][k]) for hi, k in chunks[a:a + cshard])
             files.append(("c09chunks%d" % (a // cshard), txt))
         ncs = len(files) - ngs
+        # canary: 20 copies of a chunk whose first stored statistic is off by one MUST come back as 20 (copy, 1, 0) entries
+        # (20: the printed list is then wrapped over several lines, also right after an opening parenthesis, as real results are)
+        ncanary = 0
+        for hi, k in chunks:
+            ch = hs[hi]["chunks"][k]
+            if ch.get("stats") and not ch.get("stat_fail"):
+                bad = dict(ch, stats=[dict(ch["stats"][0], count=ch["stats"][0]["count"] + 1)] + list(ch["stats"][1:]))
+                ncanary = 20
+                canary_txt = (HDR + "Definition cases : list chunk_case := [\n%s\n].\n"
+                              "Definition M := Eval vm_compute in flat_chunks cases.\nPrint M.\n") % ";\n".join([chunk_term(bad)] * ncanary)
+                break
         mshard = 400
         for a in range(0, len(mems), mshard):
             txt = (HDR + "Definition cases : list mem_case := [\n%s\n].\n"
@@ -224,6 +245,8 @@ def main(ck):
         if bterms:
             files.append(("c09buckets", HDR + "Definition cases : list (Z * Z * list Z) := [\n%s\n].\n"
                           "Definition M := Eval vm_compute in bucket_mismatches cases.\nPrint M.\n" % ";\n".join(bterms)))
+        if ncanary:
+            files.append(("c09canary", canary_txt))
     model_bad = set()
     chunk_res = {}   # (global chunk idx) -> {kind: set(idx)}
     mem_res = {}
@@ -231,7 +254,12 @@ def main(ck):
     if ok and files:
         outs = ck.coq_eval_many(files, timeout=900)
         for k, (rc2, o) in enumerate(outs):
-            if k < ngs:
+            if files[k][0] == "c09canary":
+                tr = parse_triples(o) if rc2 == 0 else None
+                if tr is None or {(i, 1, 0) for i in range(ncanary)} - set(tr):
+                    ck.broken.append("C09 canary: a corrupted case was not reported by the model evaluation (%d copies of a chunk with a "
+                                     "stored count off by one; read back: %s)" % (ncanary, "nothing" if tr is None else sorted(tr)[:20]))
+            elif k < ngs:
                 m = re.search(r"M\s*=\s*(.*?)\s*:\s*list", o, re.S)
                 if rc2 != 0 or not m:
                     ck.broken.append("C09 model evaluation failed on group shard %d: %s" % (k, o[-500:]))
